@@ -144,12 +144,12 @@ void partition(float * spec,
     zmax = fmax(zmax, zp[i]);
   }
 
-  // Mostly constant spectral array has no partitions
+  // Mostly constant spectral array is a single partition
   if ( zmax - zmin < 1e-9 ) {
     for (i = 0; i < nspec; i++) {
-      ipart[i] = 0;
+      ipart[i] = 1;
     }
-    npart = 0;
+    npart = 1;
     verif_event("const", 0, 0, 0, 0, NULL, 0);
     return;
   }
